@@ -21,6 +21,7 @@ type Report struct {
 	Reruns   int
 	Unstable []string
 	NoEvidence bool
+	WorkDir    string
 }
 
 type knownFinding struct {
@@ -283,6 +284,9 @@ func (r *Report) finish(e *Engine, units []*UnitResult, obls []*Obligation, verb
 	}
 	fmt.Printf("%s %s: %d/%d obligations discharged over %d units (%d not verified), %d vacuity probes, solver time %.1fs (max %.2fs), wall %.1fs\n",
 		r.Prop, r.Tier, discharged, total, len(fuc), len(unitErrs), covers, tsum, tmax, time.Since(r.t0).Seconds())
+	if r.NoEvidence && r.WorkDir != "" {
+		os.RemoveAll(r.WorkDir) // scratch runs (selftest, seeded changes) leave nothing behind
+	}
 	if broken {
 		os.Exit(2)
 	}
